@@ -22,7 +22,8 @@ Translation validation, per program of a stated finite family (corpus/c01fam.py:
       terminates   (only when violated) the IR finishes within the step bound on every path on which the C program
                    finished within its unwinding bound (a mis-compiled loop that spins is reported, not cut)
       layout       (only when violated) the size of every global object equals sizeof of its type in the data model
-Loops are unwound (bounded trip counts by construction of the family; cut paths are counted, never claimed).
+Loops are unwound; the family bounds every trip count by a mask or constant, so no path may be cut (cut allowance 0:
+a cut path is reported INCONCLUSIVE).
 """
 import os
 import io
